@@ -15,6 +15,7 @@ DECIDED = ("R1 all 794 key words (768 piece + 16 castling + 8 en-passant + 2 tur
            "R4 Hash feeds exactly that folded value to the hasher and Eq compares exactly {turn, castle_rights, enpassant_target, raw} (RawBoard's Eq is the derived one); "
            "R5 the repetition table's identity hasher receives exactly one write_u64 and finish() returns it; R6 the hash literal of Board::standard() equals the xor of the "
            "piece keys of RawBoard::standard().")
+DECIDED = DECIDED + ' R2 fold form: the new hash read as a term is old ^ fold(squares of diff, 0 or old, |h, pos| h ^ KEY[color][pos][piece]), in Board::xor or in a private helper.'
 NOT_DECIDED = ("that make-move calls the xor helper for the right squares (that is C02's behaviour); equality of incremental and from-scratch hashes on actual histories follows "
                "from R2 only under that premise and is not itself decided")
 EXPLANATION = ("Key tables are constant data (K1). Update sites are read as per-path effect summaries by K4 propagation (loops by the generic-iteration abstraction) and the "
